@@ -25,7 +25,9 @@ Assign == << <<Bool(TRUE), Bool(FALSE), Whole(0), Whole(2)>>,
              <<Bool(FALSE), Bool(TRUE), Whole(3), Whole(0)>>,
              <<Whole(1), Whole(0), Bool(TRUE), Blank>>,
              <<Blank, Whole(-1), Bool(FALSE), Bool(TRUE)>>,
-             <<Bool(TRUE), Err("#N/A"), Whole(1), Bool(TRUE)>> >>      \* an error VALUE in a cell (B1): inside the range A1:B1
+             <<Bool(TRUE), Err("#N/A"), Whole(1), Bool(TRUE)>>,        \* an error VALUE in a cell (B1): inside the range A1:B1
+             \* numbers far below 1E-15 are numbers other than zero: TRUE as a condition
+             <<[t |-> "float", v |-> "1e-16"], [t |-> "float", v |-> "-3e-17"], [t |-> "float", v |-> "4e-300"], Whole(0)>> >>
 WbOfA(asg) == [cells |-> [k \in {<<"Sheet1", i, 1>> : i \in {j \in 1..4 : asg[j].t # "blank"}} |-> [c |-> "const", v |-> asg[k[2]]]],
                names |-> <<>>]
 
@@ -54,6 +56,12 @@ InitCase ==
   \/ \E f \in {"AND", "OR"}, i \in 1..NJ, j \in 1..NJ, k \in {1, 2, 5, 6, 9, 13} :
         case = Mk("junc3", CallN(f, <<Sp(1, JArgs[i]), Sp(2, JArgs[j]), Sp(3, JArgs[k])>>), 2)
   \/ \E c \in 1..Len(Conds), g \in 1..Len(Assign) : case = Mk("not", CallN("NOT", <<Conds[c]>>), g)
+  \/ \E c \in {7, 8, 9, 10}, sw \in BOOLEAN :
+        case = Mk("if-tiny", CallN("IF", IF sw THEN <<Conds[c], Spy(1), Spy(2)>> ELSE <<Conds[c], Spy(1)>>), 6)
+  \/ \E c \in {7, 8, 9, 10} : case = Mk("not-tiny", CallN("NOT", <<Conds[c]>>), 6)
+  \/ \E f \in {"AND", "OR"}, c \in {7, 8, 9, 10}, j \in {1, 2, 4, 7, 8} :
+        case = Mk("junc-tiny", CallN(f, <<Conds[c], Sp(2, JArgs[j])>>), 6)
+  \/ \E f \in {"AND", "OR"}, j \in {7, 8} : case = Mk("junc-tiny", CallN(f, <<JArgs[j]>>), 6)
   \/ \E c \in 1..Len(Conds), f \in {"AND", "OR"}, g \in {1, 2} :
         case = Mk("nested", CallN("IF", <<CallN(f, <<Conds[c], Spy(5)>>), Spy(6), CallN("IF", <<Conds[c], Spy(7), Poison[1]>>)>>), g)
 
